@@ -219,6 +219,14 @@ static int run_random(uint64_t seed, long n) {
   vrt::Rng r(seed);
   for (long i = 0; i < n; ++i) {
     Tree t = rnd_tree(r, r.range(0, 8));
+    if (i % 60 == 7) {
+      // a WIDE tree: one node with 1002 .. 1600 sub-metadata (the decoder's depth limit of 1000 is about nesting, not about siblings)
+      Tree *node = &t;
+      if (!t.s.empty() && r.coin()) node = &t.s[0].second;
+      node->s.clear();
+      const int w = r.range(1002, 1600);
+      for (int k = 0; k < w; ++k) { Tree c; if (k % 97 == 0) c.e.push_back({Bytes{(uint8_t)'k'}, Bytes{(uint8_t)(k & 0xFF)}}); node->s.push_back({Bytes{(uint8_t)(k >> 8), (uint8_t)(k & 0xFF)}, c}); }
+    }
     std::vector<Att> atts;
     if (r.coin(1, 2)) atts.push_back({r.range(0, 70000), rnd_tree(r, r.range(0, 2))});
     if (r.coin(1, 3)) direct_case(t, atts, false, false, {});
